@@ -8,6 +8,11 @@ CHECKS = {
   text="Every program of the enumerated families is loaded into a fresh real interpreter and every query is run to exhaustion; the complete answer sequence (structurally captured, up to variable renaming), the terminal status, the error term and the output are compared with a textbook goal-stack/choice-point reference machine that shares no design with the promise/continuation VM. Exhaustive within the stated size bounds, smallest first.",
   note="Trusted: the reference machine ref/solve (self-checked against the ISO examples) and the harness printer; programs beyond the size bounds or outside the signature are not covered; cases on which the reference exceeds its step budget are compared on the answer prefix only.",
   design="DESIGN.md §3 C01"),
+ "C02": dict(
+  technique="bounded-exhaustive enumeration of term pairs and of list construction recipes on the real interpreter against a reference Robinson unifier; exhaustive enumeration of binding orders on the real persistent environment against a Go map",
+  text="All ordered pairs of terms up to the depth bound are unified both ways through =/2, unify_with_occurs_check/2, subsumes_term/2 and clause heads; success, the answer substitution up to renaming (hence most-generality), identity afterwards and the absence of bindings after failure are compared with the reference. Every abstract list up to the length bound is built through 13 constructor paths and every pair of constructions is unified and compared, also against each literal notation in a clause head. Every insertion order of up to 7/8 variables into the environment is applied and every earlier version re-checked (persistence).",
+  note="Trusted: ref/unify and the conservative STO detector (pairs subject to occurs check are skipped for =/2, as ISO leaves them undefined).",
+  design="DESIGN.md §3 C02"),
  "C03": dict(
   technique="bounded-exhaustive enumeration of control skeletons (all clause bodies up to a length bound over 28 item shapes incl. every opaque wrapper, x clause layouts x 13 calling contexts, plus a sweep of the recursion depth between call and cut) on the real interpreter; answer sequence and execution trace compared with an ISO reference machine",
   text="Every skeleton is loaded into a fresh real interpreter and run in every calling context; generators write one character per clause tried, so the comparison with the reference machine (ISO cut barriers, call/N opaque) covers both the answers and exactly which alternatives were retried. A depth sweep puts every stack size 0..72 between the call and the cut. Exhaustive within the bounds.",
